@@ -85,6 +85,8 @@ func Reset() {
 	Failed, Events, Reached, Diverged = nil, nil, nil, nil
 	Facts = map[string]string{}
 	clockStarted, clockNS, SleepCount, MaxSleeps = false, 0, 0, 0
+	ClockAbs, ClockFrozen, clockFrozen = false, false, false
+	clockFrozen = false
 	Files = map[string]string{}
 	FileWrites = nil
 	Timers = nil
@@ -256,6 +258,31 @@ func UnixNano(t time.Time) int64 { return t.UnixNano() }
 
 func NoopCancel() {}
 
+// LoopLimit: under the symbolic executor, an activation of fn (short name as in
+// the report's Funcs keys, e.g. "(*app.App).findBestStreamFrom") that enters any
+// one of its basic blocks more than n times on a feasible path is reported as the
+// termination violation "termination@fn" (an unwinding assertion turned into a
+// finding). n <= 0 clears the bound. Natively it arms a watchdog instead: if the
+// bound is still armed after 2 s the process exits with status 124, which the
+// replayer reads as "did not terminate" (a real non-terminating loop is stopped
+// before it eats the machine's memory).
+func LoopLimit(fn string, n int) {
+	mu.Lock()
+	defer mu.Unlock()
+	if t := loopWatch[fn]; t != nil {
+		t.Stop()
+		delete(loopWatch, fn)
+	}
+	if n > 0 {
+		loopWatch[fn] = time.AfterFunc(2*time.Second, func() {
+			fmt.Fprintln(os.Stderr, "verifnd: "+fn+" still running after 2s: treated as non-termination")
+			os.Exit(124)
+		})
+	}
+}
+
+var loopWatch = map[string]*time.Timer{}
+
 // OpaqueStrings is a slice of n strings of which only the length may be observed.
 func OpaqueStrings(label string, n int) []string { return make([]string, n) }
 
@@ -277,19 +304,56 @@ func Param(name string, def int) int {
 var (
 	clockStarted bool
 	clockNS      int64
+	clockFrozen  bool
 )
+
+// ClockFreeze(true) stops the clock at its current reading: Now/Since keep returning the
+// same instant (and draw nothing) until ClockFreeze(false). For harnesses that reason about
+// a step in which the code under test compares against the clock once: every comparison
+// then uses the very instant the oracle speaks about.
+func ClockFreeze(on bool) {
+	if !clockStarted {
+		Now()
+	}
+	clockFrozen = on
+}
 
 const (
 	clockMax  = int64(1) << 61
 	clockStep = int64(1) << 50
 )
 
+// ClockFrozen: while true, Now() returns the current reading without advancing it
+// (same effect as ClockFreeze(true); kept as a variable for harnesses that set it directly).
+var ClockFrozen bool
+
+// ClockAbs selects the cheaper clock formulation (set it at the start of a
+// harness): every reading is max(previous reading, fresh instant in [1, 2^61)),
+// i.e. still an arbitrary non-decreasing clock, but the solver sees comparisons
+// of instants instead of sums of steps, and no Assume (= no solver round trip)
+// is needed per reading. Draw label: "clock.at". Default off (old behaviour).
+var ClockAbs bool
+
+func nowAbs() time.Time {
+	x := Int64("clock.at") & (clockMax - 1)
+	x = IteInt64(x == 0, 1, x)
+	clockNS = IteInt64(x > clockNS, x, clockNS)
+	clockStarted = true
+	return TimeAt(clockNS)
+}
+
 // Now returns a non-decreasing instant in [1, 2^61+k·2^50) ns after the epoch.
 func Now() time.Time {
+	if ClockAbs {
+		return nowAbs()
+	}
 	if !clockStarted {
 		clockNS = Int64("clock.start")
 		Constrain(And(clockNS >= 1, clockNS < clockMax))
 		clockStarted = true
+	}
+	if clockFrozen || ClockFrozen {
+		return TimeAt(clockNS)
 	}
 	d := Int64("clock.step")
 	Constrain(And(d >= 0, d < clockStep))
@@ -318,6 +382,10 @@ var (
 // Sleep advances the clock by at least d.
 func Sleep(d time.Duration) {
 	Now()
+	if clockFrozen {
+		Event("sleep")
+		return
+	}
 	extra := Int64("clock.sleep.extra")
 	Constrain(And(extra >= 0, extra < clockStep))
 	if d > 0 {
